@@ -45,13 +45,26 @@ definition loaded by cs.load, cs.loadfile, the legacy parser or built with cs._m
 by assignment before loading, after loading, and flipped between two reads of the SAME bytes (which then must give the values
 of the other byte order) and back; every phase decodes and encodes through seeded entry points.  The elements are the standard
 decodings of the element-size slices under the endianness current at the call; encoding is the inverse.
+
+Section 10, the 'values that outlive an endianness change' family (harness/v10_c05.py): a change of the endianness takes effect for
+all subsequent WRITES too, whatever the age of the value that is written.  Seeded trials make a type - a union (overlapping integers
+of every width, floats, enums, char / wchar, 1-d / 2-d arrays, a nested structure; `union U {..}` or `typedef union {..} U`), a
+structure (every scalar family, every array form, bit-fields, nested structures, union members and arrays of unions), an array of
+unions or scalars, a single scalar; compiled / interpreted; aligned / packed; load / loadfile - obtain a value under one byte order
+(parsed through a seeded entry point: bytes, bytearray, memoryview, stream, real file, reads, read; or built by keyword,
+positionally, by attribute assignment, as a scalar / array instance), then change cs.endian ('<' <-> '>' / '!', another spelling of
+the same order, back again) and after every change write the OLD value through dumps / instance.dumps / bytes() / write /
+instance.write / len() / == / as the member of a holder structure built after the change: the bytes are the standard encoding of
+the member values under the endianness current at the write (a union: its content with every scalar of a covering member
+byte-swapped when the order differs from the one it was obtained under, zero padding behind), and reading them back gives the
+member values of the value.
 """
 from __future__ import annotations
 
 import io
 import struct
 
-from .. import common, impl, v4_c05, v5_c05, v9_c05, v9_c05arr
+from .. import common, impl, v4_c05, v5_c05, v9_c05, v9_c05arr, v10_c05
 from ..common import A, Case, Result, mkrng, parse_sexp, run_driver, sx
 
 INTS = {  # canonical name -> (size, signed)
@@ -172,7 +185,14 @@ def run(env) -> Result:
                 "cs.T[Expression(EOF)]), a typedef, a structure member or a typedef'd member, loaded by load / loadfile / the legacy parser / "
                 "cs._make_struct, endianness set in the constructor / before loading / after loading / flipped between two reads of the same "
                 "bytes and back: in every phase the elements are the standard decoding of the element-size slices under the CURRENT endianness "
-                "(every entry point), encoding is the inverse. Each case: independent oracle vs real library vs Lean model. "
+                "(every entry point), encoding is the inverse; outliving-value trials: a value of a generated union (overlapping ints / floats / "
+                "enums / char / wchar / arrays / a nested structure), structure (every scalar family and array form, bit-fields, nested "
+                "structures, union members, arrays of unions), array or scalar - compiled/interpreted, aligned/packed, load/loadfile - parsed "
+                "(bytes, bytearray, memoryview, stream, file, reads, read) or built (keywords, positional, attribute assignment, instance) under "
+                "one byte order, then cs.endian changed (other order / other spelling / back) and after every change the OLD value written "
+                "through dumps, instance.dumps, bytes(), write, instance.write, len(), ==, and as member of a holder structure built after the "
+                "change: exactly the standard encoding of the member values under the endianness current at the write (unions: the content "
+                "byte-swapped along a covering member, zero padding), and reading it back gives the member values. Each case: independent oracle vs real library vs Lean model. "
                 "distinct = (type, endian, value/bytes); non-trivial = multi-byte or non-zero")
     R = Runner(env, res)
     rnd = mkrng(env["seed"], "c05")
@@ -401,6 +421,9 @@ def run(env) -> Result:
 
     # ---- 9. every array form x every endianness x every entry point
     v9_c05arr.run(R, mkrng(env["seed"], "c05-arrays"), tier)
+
+    # ---- 10. values that outlive an endianness change: every write uses the current byte order (unions, structures holding unions)
+    v10_c05.run(R, mkrng(env["seed"], "c05-outlive"), tier)
 
     # ---- model correspondence
     answers = run_driver(R.lines) if env["driver_ok"] else [None] * len(R.lines)
